@@ -4,3 +4,18 @@ add("C21", "model_checking", "vh",
     "exhaustive enumeration of the varint encoding space against an independent codec",
     "Every byte string up to 3 (quick) / 4 (thorough) bytes and boundary lattices up to 9 bytes are decoded in strict and lenient mode and compared with a reference varint codec (value, consumed length, acceptance); every value in +-2^21 (quick) / +-2^27 (thorough) plus +-2^k+-d is encoded and round-tripped. A finite space enumerated completely, which a unit test cannot do.",
     "Trusts the 60-line reference codec in harness/src/props/c21.rs (written from docs/serde-2026.md); encodings of 5-8 bytes are covered on a boundary lattice, not completely.")
+
+add("C15", "model_checking", "vh",
+    "exhaustive small-scope tree enumeration against an independent classic codec",
+    "Every tree of TREES(4|5, A6) in 3 sharing modes x 3 atom representations, atoms at every length-prefix boundary, list/deep/doubling families and the prefix encoder up to 2^34 are serialized by the real code and compared with an independent encoder/decoder; four length functions and is_canonical_serialization are checked on every output. The converse direction is decided on C16's byte-string space.",
+    "Trusts the reference codec in harness/src/tree.rs. Atoms >= 2^32 bytes reach only the prefix/length arithmetic (lazily zeroed buffers); trees larger than the stated scopes are not covered.")
+
+add("C16", "model_checking", "vh",
+    "exhaustive byte-string enumeration, three decoders against a reference decoder",
+    "All byte strings of length <= 3, all strings of length <= 6|7 over the 15-byte class alphabet, (thorough) all 4-byte strings over a 64-byte alphabet, every truncation/one-byte corruption of every TREES(4,A6) serialization and declared-size probes go through node_from_stream, parse_triples, tree_hash_from_stream and is_canonical_serialization; acceptance, bytes consumed, tree, triple structure, hash and canonicity are compared with an independent decoder; heap requests per input are bounded with a counting allocator.",
+    "Trusts the reference decoder (tree.rs) and reference SHA-256 (refsha.rs, self-tested at start-up). Inputs longer than the bounds are covered only structurally.")
+
+add("C29", "exploration", "vh",
+    "exhaustive (tree, limit) enumeration of both limited serializers",
+    "Every tree of two small-scope tree spaces (one back-reference rich) with EVERY limit 0..=len+1 through node_to_bytes_limit and node_to_bytes_backrefs_limit; below the length the error must be exactly OutOfMemory, whatever token is being written, at/above it the unlimited bytes.",
+    "Differential against the unlimited serializers of the same crate (whose correctness is C15/C17's subject).")
